@@ -31,7 +31,13 @@ import (
 //	O                 proper response type, payload MaxBufferedPayloadSz+1 bytes
 //	G1|G2|G3          proper response type, payload the decoders reject (truncated / wrong TLV
 //	                  type / TLV longer than the message)
-//	N                 no reply
+//	N                 no reply, and nothing else either (a client with a timeout loses the link)
+//	S                 no reply, but the link stays alive: from the moment the message arrives the
+//	                  reader sends a KEEPALIVE every quarter of the client's timeout (every 20 ms for
+//	                  a client without one), waiting for each acknowledgement
+//	L:<cb>:<mb>:<st>  like S, and after one and a half client timeouts (60 ms for a client without
+//	                  one) the reader does send R:<cb>:<mb>:<st> — too late for a client with a
+//	                  timeout, merely slow for one without
 //
 // T<ms>: the client is built WithTimeout(ms).  C: on N the reader closes the connection.
 // K1: the reader sends a KEEPALIVE when it has received GET_SUPPORTED_VERSION and answers the
@@ -71,8 +77,11 @@ import (
 //
 // Answer line:
 //
-//	<sid> <proceeds|fails|panic|hang> <cver> <frames before the outcome> <frames after> <req1> <req2> <ack> <early> <cver at the end> h<held>
+//	<sid> <proceeds|fails|panic|hang|waits> <cver> <frames before the outcome> <frames after> <req1> <req2> <ack> <early> <cver at the end> h<held>
 //
+// waits: a client WITHOUT a timeout had neither gone on nor returned 300 ms after the session began although
+// a negotiation message is (S) never answered — it is still waiting.  In sessions with S / L
+// reactions nothing read after the outcome is reported for a Connect that does not proceed.
 // "before": for a Connect that proceeds, the frames the reader had read when it sent its last answer
 // to a negotiation message (none without negotiation); otherwise all frames read when Connect ended.
 // frames ::= - | f,f,…  f = <version bits>:<type>:<hex payload>.  cver = Client.version when
@@ -150,6 +159,10 @@ type c06Peer struct {
 	d1, d2         string                  // what a reader that has stopped reading does before its answer to the query / the switch (k: KEEPALIVE, r: read one frame)
 	settled        func(mayGoOn bool) bool // waits until the client has acted on the answer just sent; false: Connect has failed
 	pre            []byte                  // bytes of the next frame already taken off the connection (read loop only)
+	timeout        time.Duration           // the client's timeout (0: none)
+	unanswered     int                     // negotiation messages received and (S, L: not yet) answered; under mu
+	kaAcked        chan struct{}           // one token per acknowledgement of a KEEPALIVE sent while a message is left unanswered
+	quit           chan struct{}           // closed when the outcome of Connect has been observed: no more KEEPALIVEs in place of an answer
 	vg, vn, vl     int                     // header versions: greeting, during negotiation, afterwards (-1: echo / 1)
 	early          func()                  // starts the early caller (once)
 	earlyAt        int                     // 1: when GET_SUPPORTED_VERSION arrives, 2: when SET_PROTOCOL_VERSION arrives
@@ -191,6 +204,10 @@ func (p *c06Peer) put(ver, typ int, id uint32, payload []byte) {
 const c06Settle = 1500 * time.Microsecond
 
 func (p *c06Peer) react(f c06Frame, r string, respType int, versions bool) {
+	if r == "S" || strings.HasPrefix(r, "L:") {
+		p.leaveUnanswered(f, r, respType, versions)
+		return
+	}
 	p.mu.Lock()
 	p.marker = len(p.frames)
 	p.held, p.holding = p.holding, 0
@@ -229,6 +246,53 @@ func (p *c06Peer) react(f c06Frame, r string, respType int, versions bool) {
 			p.conn.Close()
 		}
 	}
+}
+
+// leaveUnanswered: the message gets no answer (S) or a late one (L) while the link is kept alive:
+// KEEPALIVEs at a period well below the client's timeout, each sent when the previous one has been
+// acknowledged (so that none is outstanding when the late answer goes out).
+func (p *c06Peer) leaveUnanswered(f c06Frame, r string, respType int, versions bool) {
+	p.mu.Lock()
+	p.unanswered++
+	p.mu.Unlock()
+	period, delay := 20*time.Millisecond, 60*time.Millisecond
+	if p.timeout > 0 {
+		period, delay = p.timeout/4, p.timeout*3/2
+	}
+	go func() {
+		tick := time.NewTicker(period)
+		defer tick.Stop()
+		var late <-chan time.Time
+		if r != "S" {
+			late = time.After(delay)
+		}
+		id := uint32(950)
+		for {
+			select {
+			case <-p.done:
+				return
+			case <-p.quit:
+				return
+			case <-late:
+				p.mu.Lock()
+				p.unanswered--
+				p.mu.Unlock()
+				p.react(f, "R"+r[1:], respType, versions)
+				return
+			case <-tick.C:
+				if id++; id > 998 {
+					id = 951
+				}
+				p.put(p.vn, 62, id, nil)
+				select {
+				case <-p.kaAcked:
+				case <-p.done:
+					return
+				case <-time.After(time.Second):
+				}
+			}
+		}
+	}()
 }
 
 // maybeKeepAlive answers a negotiation message: directly, or (ka) by first sending a KEEPALIVE
@@ -375,6 +439,13 @@ func (p *c06Peer) run() {
 			if f.id > 900 && f.id < 930 {
 				break // acknowledgement of a KEEPALIVE sent while the reader was not reading: recorded, nobody waits for it
 			}
+			if f.id > 950 && f.id < 999 {
+				select {
+				case p.kaAcked <- struct{}{}:
+				default:
+				}
+				break
+			}
 			if !p.runPending(f.id) {
 				select {
 				case p.acks <- f:
@@ -476,7 +547,10 @@ func c06Session(line string) string {
 	// nothing the scripted reader does may block for good, whatever the client does
 	_ = pConn.SetDeadline(time.Now().Add(10 * time.Second))
 	peer := &c06Peer{conn: pConn, r1: f[2], r2: f[3], closeOnSilence: closeOnSilence, k1: k1, k2: k2, d1: d1, d2: d2, vg: vg, vn: vn, vl: vl,
-		acks: make(chan c06Frame, 4), done: make(chan struct{}), appSeen: make(chan struct{}, 64)}
+		acks: make(chan c06Frame, 4), done: make(chan struct{}), appSeen: make(chan struct{}, 64),
+		timeout: timeout, kaAcked: make(chan struct{}, 8), quit: make(chan struct{})}
+	silent := func(r string) bool { return r == "S" || strings.HasPrefix(r, "L:") }
+	quiet := silent(f[2]) || silent(f[3]) // a session in which a negotiation message may be left unanswered
 
 	opts := []ClientOpt{WithVersion(VersionNum(cmax)), WithLogger(nil)}
 	if timeout > 0 {
@@ -586,9 +660,18 @@ func c06Session(line string) string {
 		case <-time.After(2 * time.Millisecond):
 			outcome = "proceeds"
 		}
-	case <-time.After(3 * time.Second):
+	case <-time.After(func() time.Duration {
+		if timeout == 0 && (f[2] == "S" || f[3] == "S") {
+			return 300 * time.Millisecond
+		}
+		return 3 * time.Second
+	}()):
 		outcome = "hang"
+		if timeout == 0 && (f[2] == "S" || f[3] == "S") {
+			outcome = "waits"
+		}
 	}
+	close(peer.quit)
 	before := peer.seen()
 	cverNeg := int(client.version) // ready is closed or Connect has returned: negotiate's write happened before
 	held := 0
@@ -597,7 +680,9 @@ func c06Session(line string) string {
 		// negotiation message: what it had read by then came before, whatever it reads later came
 		// after (without negotiation: everything comes after)
 		peer.mu.Lock()
-		before = before[:peer.marker]
+		if peer.unanswered == 0 {
+			before = before[:peer.marker]
+		} // else: Connect has gone on although a negotiation message is unanswered: all of it came before
 		held = peer.held
 		peer.mu.Unlock()
 	}
@@ -652,6 +737,9 @@ func c06Session(line string) string {
 	}
 afterTraffic:
 	all := peer.seen()
+	if quiet && outcome != "proceeds" {
+		all = before
+	}
 
 	_ = client.Close()
 	cConn.Close()
